@@ -141,6 +141,10 @@ func genConn(c *ev.Case) string {
 		return "01.2.3.4 1 2 3"
 	case 9:
 		return "1.2.3.4/32 1 2 3"
+	case 10:
+		// what sshd and its relatives put there when the peer has no IP address, and other words that are not addresses
+		w := []string{"UNKNOWN", "unknown", "localhost", "-", "UNIX", "[::1]", "0x7f.1", "::1%", "1.2.3", "４.４.４.４"}[r.Intn(10)]
+		return w + " 65535 " + w + " 65535"
 	}
 	return gen.IP(r) + " " + strconv.Itoa(r.Intn(65536)) + " " + gen.IP(r) + " 22"
 }
